@@ -195,6 +195,34 @@ fn one_1d<T: QElem>(cfg: &Cfg, rep: &mut Report, maxn: usize) {
     }
 }
 
+/// longer lanes of distinct, scattered values: the index computation (N-1)q in f64 for every q = k/(N-1), its two f64
+/// neighbours and the half-way points - lane lengths the complete enumeration above cannot reach (added for seed Z2:
+/// an index expression that is equal in exact arithmetic but rounds differently, first visible at N = 6)
+fn long_1d(cfg: &Cfg, rep: &mut Report, maxn: usize) {
+    for n in 5..=maxn {
+        let mut step = n / 2 + 1;
+        while gcd(step, n) != 1 { step += 1; }
+        let lane: Vec<i32> = (0..n).map(|i| 10 * ((i * step) % n) as i32 - 20).collect();
+        let mut sl = lane.clone(); sl.sort();
+        for s in STRATS { for q in q_grid(n) {
+            let case = format!("long1d;type=i32;n={};step={};q={:e};strategy={:?}", n, step, q, s);
+            if !rep.want(cfg, &case) { continue; }
+            let mut v = Array1::from(lane.clone());
+            match guarded(|| run_1d(&mut v.view_mut(), q, s)) {
+                Err(m) => rep.fail_p(cfg, &case, "C01,C19", "quantile_mut panicked", json!({"panic": m})),
+                Ok(Err(e)) => rep.fail_p(cfg, &case, "C01,C17", "quantile_mut returned an error for a valid request", json!({"error": e})),
+                Ok(Ok(r)) => {
+                    let mut c = String::new();
+                    if let Err(why) = oracle(&sl, q, s, &r, &mut c) { rep.fail_p(cfg, &case, "C01,C19", "quantile differs from the documented order statistic", json!({"got": format!("{:?}", r), "why": why})); }
+                }
+            }
+            rep.eval(&case, true);
+            if rep.stop { return; }
+        }}
+    }
+}
+fn gcd(a: usize, b: usize) -> usize { if b == 0 { a } else { gcd(b, a % b) } }
+
 /// n-D arrays: every axis, several layouts, bulk requests (order, duplicates), bulk == single
 fn one_nd<T: QElem>(cfg: &Cfg, rep: &mut Report, shapes: &[Vec<usize>], seed: u64) {
     let al = T::alphabet();
@@ -273,11 +301,12 @@ fn one_nd<T: QElem>(cfg: &Cfg, rep: &mut Report, shapes: &[Vec<usize>], seed: u6
 
 pub fn quantiles(cfg: &mut Cfg, rep: &mut Report) {
     let maxn = if cfg.thorough { 5 } else { 4 };
-    rep.bound = format!("1-D: every lane of length 1..={} over a 4-letter alphabet incl. type extremes (i8,u8,i64 near 2^51,N64), q grid (k/(N-1), one ulp below/above, .5 fractions, 0, 1), 5 strategies, 3 layouts, pivot scripts by DFS (capped); n-D: shapes up to 3-D, every axis, C/F/stepped-in-parent/reversed layouts, random data and pivot scripts (seeded), bulk requests with repeats and empty lists", maxn);
+    rep.bound = format!("1-D: every lane of length 1..={} over a 4-letter alphabet incl. type extremes (i8,u8,i64 near 2^51,N64), q grid (k/(N-1), one ulp below/above, .5 fractions, 0, 1), 5 strategies, 3 layouts, pivot scripts by DFS (capped); one lane of distinct scattered i32 values per length 5..=24 (thorough: 64) with the same q grid and strategies; n-D: shapes up to 3-D, every axis, C/F/stepped-in-parent/reversed layouts, random data and pivot scripts (seeded), bulk requests with repeats and empty lists", maxn);
     one_1d::<i8>(cfg, rep, maxn);
     one_1d::<u8>(cfg, rep, maxn.min(3));
     one_1d::<i64>(cfg, rep, maxn.min(3));
     one_1d::<N64>(cfg, rep, maxn.min(3));
+    long_1d(cfg, rep, if cfg.thorough { 64 } else { 24 });
     // (axes of length 1 in every position: a lane of one element, several lanes, several quantiles)
     let shapes: Vec<Vec<usize>> = if cfg.thorough { vec![vec![2, 3], vec![3, 2], vec![2, 2, 3], vec![1, 4], vec![3, 1], vec![2, 1, 3], vec![3, 0], vec![2, 1, 2, 2]] } else { vec![vec![2, 3], vec![3, 2], vec![1, 3], vec![2, 1, 2], vec![2, 2, 2], vec![2, 0]] };
     one_nd::<i32>(cfg, rep, &shapes, cfg.seed);
